@@ -45,7 +45,7 @@ class ContractMixin:
         env['__target_module__'] = target_module
         return env
 
-    def run_lets(self, st, c: Contract, env, phase, oldst=None):
+    def run_lets(self, st, c: Contract, env, phase, oldst=None, tolerant=False):
         """Evaluate let-bindings (`x = expr`).  phase 'pre': bindings before the first ensures/raises statement;
         phase 'post': the remaining ones."""
         seen_post = False
@@ -56,7 +56,11 @@ class ContractMixin:
             if isinstance(s, ast.Assign):
                 if (phase == 'pre') != (not seen_post):
                     continue
-                env[s.targets[0].id] = self.sev(st, s.value, env, c.module)
+                try:
+                    env[s.targets[0].id] = self.sev(st, s.value, env, c.module)
+                except Unsupported:
+                    if not tolerant:
+                        raise
 
     # ------------------------------------------------------------------ modifies
     def parse_modifies(self, st: St, c: Contract, env, nodes=None):
@@ -218,6 +222,7 @@ class ContractMixin:
                     ev = SV(et, 'ref', exc_cls.ci)
                     e4 = dict(env)
                     e4['exc'] = ev
+                    self.run_lets(s4, c, e4, 'post', tolerant=True)
                     if len(rest) > 1:
                         s4.assume(self.spec_bool(s4, self.sev(s4, rest[1], e4, c.module)))
                     s4.pc.extend(pre.pc[pre_len:])
@@ -236,6 +241,8 @@ class ContractMixin:
         val = self.sev(st, call.args[2], env, c.module)
         arr = st.ghost[name]
         t = val.term if isinstance(val, (SeqTermV, RawV, BoolTermV)) else self.to_term(st, val)
+        if arr.sort().range() == smt.Bool and t.sort() != smt.Bool:
+            t = self.spec_bool(st, val)
         st.ghost[name] = z3.Store(arr, r_of(self.to_term(st, key)), t)
 
     # ------------------------------------------------------------------ obligations
@@ -322,6 +329,9 @@ class ContractMixin:
         if a.kwarg is not None:
             o = self.alloc_pre(st, self.cls('dict'))
             st.assume(self.dict_len(st, r_of(o.term)) >= 0)
+            # Python binds named parameters first: their names cannot occur in **kwargs
+            for pn in names + [p_.arg for p_ in a.kwonlyargs]:
+                st.assume(NOT(self.dict_has(st, r_of(o.term), strv(S(pn)))))
             loc[a.kwarg.arg] = o
         for p in a.kwonlyargs:
             t = smt.fresh('p_' + p.arg, Val)
@@ -456,6 +466,8 @@ class ContractMixin:
             if 'result' not in [a_.arg for a_ in fi.node.args.args]:
                 e['result'] = o.val
             self.run_lets(st, c, e, 'post')
+            for call in c.calls('ghost_update'):
+                self.do_ghost_update(st, call, e, c)
             replays = {k.args[0].value: k.args[1].value for k in c.calls('replay')}
             for i, call in enumerate(c.calls('ensures')):
                 label, rest = self._label(call, f'post{i}')
@@ -485,7 +497,7 @@ class ContractMixin:
             alts = []
             e = dict(env)
             e['exc'] = o.val
-            self.run_lets(st, c, e, 'post') if False else None
+            self.run_lets(st, c, e, 'post', tolerant=True)
             for call in rcalls:
                 label, rest = self._label(call, 'raises')
                 exc_cls = self.sev(st, rest[0], e, c.module)
